@@ -37,6 +37,8 @@ def lower_modern_syntax(tree: ast.Module) -> ast.Module:
         left as it is and reported as unsupported by whichever evaluator meets it);
       * inside functions `x: T = e` -> `x = e` (local annotations carry no behaviour);
       * `list(map(f, xs))` -> `[f(t) for t in xs]`;
+      * `np.<ufunc>(a, b, out=T)` used as a statement -> the store `T = a <op> b` it performs;
+      * a module-level `P = re.compile(<literal>)` that is never re-bound: `P.search(s)` -> `re.search(<literal>, s)`;
       * `if (x := e) <op> ...:` / `y = f((x := e))`  ->  `x = e` before the statement, when the
         assignment expression is evaluated unconditionally (not under and/or, a conditional expression
         or a comprehension).
@@ -136,6 +138,69 @@ def lower_modern_syntax(tree: ast.Module) -> ast.Module:
             return n
 
     tree = ast.fix_missing_locations(MapToComp().visit(tree))
+
+    UFUNC_OPS = {"add": ast.Add, "subtract": ast.Sub, "multiply": ast.Mult, "divide": ast.Div, "true_divide": ast.Div, "floor_divide": ast.FloorDiv, "power": ast.Pow, "mod": ast.Mod, "negative": ast.USub}
+
+    class OutToStore(ast.NodeTransformer):
+        """`np.multiply(a, b, out=T[s])` as a statement -> `T[s] = a * b`; with a name as target,
+        `np.add(a, U, out=U)` -> `U[:] = a + U` (an in-place store either way; result unused)."""
+
+        def visit_Expr(self, n: ast.Expr):
+            c = n.value
+            if isinstance(c, ast.Call) and isinstance(c.func, ast.Attribute) and isinstance(c.func.value, ast.Name) and c.func.value.id in ("np", "numpy") and c.func.attr in UFUNC_OPS and len(c.keywords) == 1 and c.keywords[0].arg == "out" and not any(isinstance(a, ast.Starred) for a in c.args):
+                op = UFUNC_OPS[c.func.attr]
+                tgt = c.keywords[0].value
+                if issubclass(op, ast.unaryop) and len(c.args) == 1:
+                    val = ast.UnaryOp(op=op(), operand=c.args[0])
+                elif issubclass(op, ast.operator) and len(c.args) == 2:
+                    val = ast.BinOp(left=c.args[0], op=op(), right=c.args[1])
+                else:
+                    return n
+                import copy
+
+                t = copy.deepcopy(tgt)
+                if isinstance(t, ast.Name):
+                    t = ast.Subscript(value=ast.Name(id=t.id, ctx=ast.Load()), slice=ast.Slice(lower=None, upper=None, step=None), ctx=ast.Store())
+                elif isinstance(t, (ast.Subscript, ast.Attribute)):
+                    t.ctx = ast.Store()
+                else:
+                    return n
+                return ast.copy_location(ast.Assign(targets=[t], value=val), n)
+            return n
+
+    tree = ast.fix_missing_locations(OutToStore().visit(tree))
+
+    # module-level compiled regular expressions: `_P = re.compile(r"...")` ... `_P.search(s)` -> `re.search(r"...", s)`
+    compiled = {}
+    rebound = set()
+    for st in tree.body:
+        tgt = val = None
+        if isinstance(st, ast.Assign) and len(st.targets) == 1 and isinstance(st.targets[0], ast.Name):
+            tgt, val = st.targets[0].id, st.value
+        elif isinstance(st, ast.AnnAssign) and isinstance(st.target, ast.Name) and st.value is not None:
+            tgt, val = st.target.id, st.value
+        if tgt is None:
+            continue
+        if tgt in compiled:
+            rebound.add(tgt)
+        if isinstance(val, ast.Call) and isinstance(val.func, ast.Attribute) and isinstance(val.func.value, ast.Name) and val.func.value.id == "re" and val.func.attr == "compile" and len(val.args) == 1 and not val.keywords and isinstance(val.args[0], ast.Constant):
+            compiled[tgt] = val.args[0]
+    for x in ast.walk(tree):
+        if isinstance(x, ast.Name) and isinstance(x.ctx, ast.Store) and x.id in compiled and not any(x is (st.targets[0] if isinstance(st, ast.Assign) else getattr(st, "target", None)) for st in tree.body if isinstance(st, (ast.Assign, ast.AnnAssign))):
+            rebound.add(x.id)
+    compiled = {k: v for k, v in compiled.items() if k not in rebound}
+    if compiled:
+        import copy as _copy
+
+        class Recompile(ast.NodeTransformer):
+            def visit_Call(self, n: ast.Call):
+                self.generic_visit(n)
+                f = n.func
+                if isinstance(f, ast.Attribute) and isinstance(f.value, ast.Name) and f.value.id in compiled and f.attr in ("search", "match", "fullmatch", "sub", "subn", "findall", "finditer", "split"):
+                    return ast.copy_location(ast.Call(func=ast.Attribute(value=ast.Name(id="re", ctx=ast.Load()), attr=f.attr, ctx=ast.Load()), args=[_copy.deepcopy(compiled[f.value.id])] + n.args, keywords=n.keywords), n)
+                return n
+
+        tree = ast.fix_missing_locations(Recompile().visit(tree))
 
     def hoistable(root: ast.expr) -> list:
         """NamedExpr nodes evaluated unconditionally when `root` is evaluated."""
@@ -576,6 +641,7 @@ class Program:
         key = (fi.qual, frozenset(keep))
         if key not in cache:
             f = inline_helpers(self, inline_class_constants(self, fi), keep=frozenset(keep))
+            f = inline_module_constants(f)
             cache[key] = _with_lines(lower_partials(project_record_fields(self, expand_handle_aliases(fold_constant_tests(inline_class_constants(self, f))))))
         return cache[key]
 
@@ -771,13 +837,17 @@ class Program:
     def _dynamic_attr(self, fi: FuncInfo, attr: str) -> list[FuncInfo]:
         """``self.<attr> = getattr(self, self.X)`` under ``if self.X in [..literals..]``."""
         mi = fi.module
-        for q, f in mi.functions.items():
+        for q, f in list(mi.functions.items()):
             if f.cls != fi.cls:
                 continue
+            # the list of names may be a class-level or module-level constant
+            f = inline_class_constants(self, f)
             for node in ast.walk(f.node):
                 if not isinstance(node, ast.If):
                     continue
                 t = node.test
+                if isinstance(t, ast.Compare) and len(t.ops) == 1 and isinstance(t.comparators[0], ast.Name) and isinstance(mi.constants.get(t.comparators[0].id), (ast.List, ast.Tuple, ast.Set)):
+                    t = ast.Compare(left=t.left, ops=t.ops, comparators=[mi.constants[t.comparators[0].id]])
                 if not (
                     isinstance(t, ast.Compare)
                     and len(t.ops) == 1
@@ -1322,6 +1392,14 @@ def inline_helpers(prog: "Program", fi: FuncInfo, depth: int = 2, private_only: 
     import copy
 
     counter = [0]
+    # names of the caller: a helper's local keeps its name unless it would collide with one of these
+    used = {x.id for x in ast.walk(fi.node) if isinstance(x, ast.Name)} | {a.arg for a in fi.node.args.posonlyargs + fi.node.args.args + fi.node.args.kwonlyargs}
+    first_seen: dict = {}
+    for x in ast.walk(fi.node):
+        if isinstance(x, ast.Name):
+            ln = getattr(x, "lineno", 0)
+            if x.id not in first_seen or ln < first_seen[x.id]:
+                first_seen[x.id] = ln
 
     class Rename(ast.NodeTransformer):
         def __init__(self, mapping):
@@ -1332,7 +1410,7 @@ def inline_helpers(prog: "Program", fi: FuncInfo, depth: int = 2, private_only: 
                 return ast.copy_location(ast.Name(id=self.mapping[node.id], ctx=node.ctx), node)
             return node
 
-    def expand_call(call: ast.Call, h: FuncInfo):
+    def expand_call(call: ast.Call, h: FuncInfo, target: Optional[str] = None, at_line: int = 0):
         """-> (statements, result expression or None)"""
         counter[0] += 1
         tag = f"__{h.name.strip('_')}{counter[0]}"
@@ -1344,7 +1422,13 @@ def inline_helpers(prog: "Program", fi: FuncInfo, depth: int = 2, private_only: 
         if is_method:
             receiver, params = params[0], params[1:]
         local_names = {x.id for x in ast.walk(node) if isinstance(x, ast.Name) and isinstance(x.ctx, (ast.Store, ast.Del))} | set(params)
-        mapping = {n: n + tag for n in local_names}
+        # the variable the helper returns may share its name with the variable the caller assigns the result
+        # to, when this statement is where the caller first mentions it (limits = _limits(...): return limits)
+        rets_ = [x for x in ast.walk(node) if isinstance(x, ast.Return) and x.value is not None]
+        same_result = target is not None and rets_ and all(isinstance(r.value, ast.Name) and r.value.id == target for r in rets_) and first_seen.get(target, 0) >= at_line and target not in params
+        mapping = {n: n + tag for n in local_names if (n in used and not (same_result and n == target))}
+        used.update(local_names)
+        used.update(mapping.values())
         # bind arguments
         bound: dict[str, ast.expr] = {}
         for p_, a in zip(params, call.args):
@@ -1373,7 +1457,7 @@ def inline_helpers(prog: "Program", fi: FuncInfo, depth: int = 2, private_only: 
                 direct[p_] = copy.deepcopy(v)  # the parameter is just another name for the argument
                 mapping.pop(p_, None)
                 continue
-            pre.append(ast.Assign(targets=[ast.Name(id=mapping[p_], ctx=ast.Store())], value=copy.deepcopy(v), lineno=call.lineno, col_offset=0))
+            pre.append(ast.Assign(targets=[ast.Name(id=mapping.get(p_, p_), ctx=ast.Store())], value=copy.deepcopy(v), lineno=call.lineno, col_offset=0))
         body = [s for s in node.body if not (isinstance(s, ast.Expr) and isinstance(s.value, ast.Constant))]
         all_rets = [x for b_ in body for x in ast.walk(b_) if isinstance(x, ast.Return)]
         folded_result = None
@@ -1469,7 +1553,8 @@ def inline_helpers(prog: "Program", fi: FuncInfo, depth: int = 2, private_only: 
                         h = _helper_of(prog, fi, c, private_only, keep)
                         if h is None:
                             continue
-                        ex = expand_call(c, h)
+                        tgt_name = holder.targets[0].id if isinstance(holder, ast.Assign) and holder.value is c and len(holder.targets) == 1 and isinstance(holder.targets[0], ast.Name) else None
+                        ex = expand_call(c, h, tgt_name, getattr(holder, "lineno", 0))
                         if ex is None:
                             continue
                         body, result = ex
@@ -2243,6 +2328,42 @@ def inline_class_constants(prog: "Program", fi: FuncInfo) -> FuncInfo:
     return FuncInfo(fi.module, fi.qual, node, fi.cls)
 
 
+def inline_module_constants(fi: FuncInfo) -> FuncInfo:
+    """Names bound once at module level to a literal number / string / boolean (`_DEFAULT_WIDTH = 3`) are
+    replaced by the literal, unless the function binds the same name itself."""
+    import copy
+
+    mi = fi.module
+    cands = {}
+    for k, v in mi.constants.items():
+        lit = v
+        if isinstance(lit, ast.UnaryOp) and isinstance(lit.op, ast.USub) and isinstance(lit.operand, ast.Constant):
+            lit = lit
+        elif not isinstance(lit, ast.Constant):
+            continue
+        if isinstance(getattr(lit, "value", 0), (bytes,)):
+            continue
+        cands[k] = v
+    if not cands:
+        return fi
+    # bound more than once in the module (or declared global somewhere): not a constant
+    counts: dict = {}
+    for x in ast.walk(mi.tree):
+        if isinstance(x, ast.Name) and isinstance(x.ctx, ast.Store) and x.id in cands:
+            counts[x.id] = counts.get(x.id, 0) + 1
+        elif isinstance(x, ast.Global):
+            for nm in x.names:
+                counts[nm] = counts.get(nm, 0) + 2
+    own = {x.id for x in ast.walk(fi.node) if isinstance(x, ast.Name) and isinstance(x.ctx, (ast.Store, ast.Del))} | set(fi.params)
+    cands = {k: v for k, v in cands.items() if counts.get(k, 0) <= 1 and k not in own and k not in ("DEBUG",)}
+    used = {x.id for x in ast.walk(fi.node) if isinstance(x, ast.Name) and isinstance(x.ctx, ast.Load)}
+    cands = {k: v for k, v in cands.items() if k in used}
+    if not cands:
+        return fi
+    node = _Subst(cands, depth=1).visit(copy.deepcopy(fi.node))
+    return FuncInfo(fi.module, fi.qual, ast.fix_missing_locations(node), fi.cls)
+
+
 def fold_constant_tests(fi: FuncInfo) -> FuncInfo:
     """`if True: A else: B` -> A ; `if False: A else: B` -> B (after helper inlining with literal flags)."""
     import copy
@@ -2415,6 +2536,7 @@ def reading_view(prog: "Program", fi: FuncInfo, propagate: bool = False) -> Func
     definitions are also substituted forward and branch temporaries sunk into the branches (for rules
     that follow one object, e.g. the release table, through a sequence of statements)."""
     f = inline_helpers(prog, inline_class_constants(prog, fi))
+    f = inline_module_constants(f)
     f = lower_partials(project_record_fields(prog, expand_handle_aliases(fold_constant_tests(f))))
     f = distribute_branch_functions(f)
     f = FuncInfo(f.module, f.qual, unroll_literal_loops(f.node), f.cls)
